@@ -94,7 +94,7 @@ PROPS["C12"] = dict(
     modules=["Proofs.C12", "Proofs.C12Pool"],
     theorems=["Goflow.C12.reset_total", "Goflow.C12.pool_independent", "Goflow.C12.sflow_stateless",
               "Goflow.C12Pool.decodeFlowP_eq", "Goflow.C12Pool.sent_formatter", "Goflow.C12Pool.history_pool_free",
-              "Goflow.C12Pool.pool_content_irrelevant", "Goflow.C12Pool.take_plain", "Goflow.C12Pool.leak_without_reset",
+              "Goflow.C12Pool.pool_content_irrelevant", "Goflow.C12Pool.take_plain", "Goflow.C12Pool.decodeFlowP_plain", "Goflow.C12Pool.history_plain", "Goflow.C12Pool.leak_without_reset",
               "Goflow.C12Pool.state_inventory"],
     generators=[dict(name="C12", quick=60, thorough=4000)],
     harness=["impl"],
